@@ -291,6 +291,24 @@ def parse_functions(rs_text):
     return res
 
 
+def shape_of(n):
+    """expression shape (Model/MirLayout.lean `Sh`, prefix notation) of a generated AST node: where mirgen opens blocks"""
+    def seq(xs):
+        xs = [x for x in xs if x != "L"]
+        if not xs:
+            return "L"
+        out = xs[-1]
+        for x in reversed(xs[:-1]):
+            out = "S" + x + out
+        return out
+    k, a = n.kind, n.a
+    if k == "if":
+        return "I" + shape_of(a[0]) + shape_of(a[1]) + shape_of(a[2])
+    if k == "lam":
+        return "L"                      # the body is another MIR function
+    return seq([shape_of(ch) for _, ch in coregen.children(n)])
+
+
 # ---------------------------------------------------------------------------------------------------------------
 # steering away from the open known findings D1..D4 (one root cause: `GetElement` yields a pointer and several lowering
 # paths of rustgen use the pointer word itself): a bare tuple projection as the value of an `if` arm, as the input of
@@ -417,6 +435,11 @@ def run_cases(cases, tag, mutate=None):
         except subprocess.TimeoutExpired:
             o["rust"] = "timeout"
             return
+        finally:
+            try:
+                os.remove(exe)          # a few MB each: only the generated source is kept
+            except OSError:
+                pass
         if q.returncode != 0:
             o["rust"] = "panic " + q.stderr.strip().replace("\n", " ")[:300]
             return
@@ -469,6 +492,9 @@ def main(ctx, args):
     ]
     known = load_known("C18")
     os.makedirs(WORK, exist_ok=True)
+    for d in os.listdir(WORK):          # nothing is cached between runs
+        if d.startswith(("run", "shrink")):
+            shutil.rmtree(os.path.join(WORK, d), ignore_errors=True)
     extract(ctx)        # a changed source shape is reported; the correspondences below still run and search for a concrete input
     proved = prove(ctx, MODULES, drivers=["drv_c18", "drv_prog"])
     if proved and ctx.tier == "thorough":
@@ -503,8 +529,20 @@ def main(ctx, args):
     for k in known:
         if "src" in k:
             cases.append({"id": "known:" + k["id"], "src": k["src"], "sx": k.get("sx"), "inputs": k.get("inputs", []), "times": k.get("times", 8), "known": k})
-    t0 = time.time()
-    res = run_cases(cases, "run", mutate)
+    # corpus and known findings first, then the generated programs; in chunks, under a wall-clock budget (rustc time varies
+    # with the load of the machine): what was not reached is counted, never silently dropped
+    cases.sort(key=lambda c: 0 if c["id"].startswith("corpus:") else (1 if "known" in c else 2))
+    budget = (100 if ctx.tier == "quick" else 1200) if not args.replay else 1e9
+    t0, res, done = time.time(), {}, []
+    chunk = 3 * NCPU
+    for k in range(0, len(cases), chunk):
+        part = cases[k:k + chunk]
+        if k > 0 and time.time() - t0 > budget and not any("known" in c or c["id"].startswith("corpus:") for c in part):
+            stats["generated_programs_not_reached_in_time_budget"] += len(cases) - k
+            break
+        res.update(run_cases(part, f"run{k // chunk}", mutate))
+        done += part
+    cases = done
     stats["programs_s"] = round(time.time() - t0, 1)
     # reference semantics
     minp = "".join(f"{c['id']}\t{c['times']}\t{coregen.inputs_field(c['inputs'])}\t{c['sx']}\n" for c in cases if c.get("sx"))
@@ -528,6 +566,27 @@ def main(ctx, args):
     if cfg_lines:
         q = driver("C18", input="".join(cfg_lines))
         ml = q.stdout.splitlines()
+        # block numbering: `lay` of the source shape against the arms of the real MIR (named functions of generated programs)
+        lay_lines, lay_meta = [], []
+        for idx, (c, k, f) in enumerate(cfg_meta):
+            if "prog" in c:
+                fn = next((x for x in c["prog"].fns + [c["prog"].dsp] if x.name == f["label"]), None)
+                if fn is not None:
+                    lay_lines.append(f"lay\t{len(lay_meta)}\t{shape_of(fn.body)}\n")
+                    lay_meta.append(idx)
+        if lay_lines:
+            ql = driver("C18", input="".join(lay_lines)).stdout.splitlines()
+            for j, idx in enumerate(lay_meta):
+                c, k, f = cfg_meta[idx]
+                want = ql[j].split("\t")[1] if j < len(ql) and "\t" in ql[j] else "driver-died"
+                g = ml[idx].split("\t") if idx < len(ml) else []
+                got = g[3] if len(g) > 3 else "?"
+                stats["layouts_checked"] += 1
+                if want != ".":
+                    stats["layouts_with_branches"] += 1
+                if want != got:
+                    enc_bad.append({"case": c["id"], "src": c["src"], "function": f["label"], "mir_control_skeleton": f["blocks"],
+                                    "note": "block numbering differs from Model/MirLayout.lean `lay`", "lay_arms": want, "mir_arms": got})
         for idx, (c, k, f) in enumerate(cfg_meta):
             g = ml[idx].split("\t") if idx < len(ml) else ["?", "?", "driver-died"]
             stats["functions_checked"] += 1
@@ -623,7 +682,9 @@ def main(ctx, args):
         "skipped_no_reference": dict(skipped),
         "violations_found": len(failures),
         "steered_away_from_D1_D4": stats["steered_away_from_D1_D4"],
-        "dispatch_loop": {"functions_checked": stats["functions_checked"], "functions_with_loop": stats["functions_with_loop"], "encoding_mismatches": len(enc_bad)},
+        "generated_programs_not_reached_in_time_budget": stats["generated_programs_not_reached_in_time_budget"],
+        "dispatch_loop": {"functions_checked": stats["functions_checked"], "functions_with_loop": stats["functions_with_loop"], "encoding_mismatches": len(enc_bad),
+                          "layouts_checked_against_lay": stats["layouts_checked"], "layouts_with_branches": stats["layouts_with_branches"]},
         "scaffold": {k: v for k, v in stats.items() if k.startswith("scaffold_")},
         "rustc_s_mean": round(sum(rustc_times) / len(rustc_times), 2) if rustc_times else None,
         "programs_wall_s": stats["programs_s"],
